@@ -1,9 +1,12 @@
 mod check;
+mod crash;
 mod disk;
+mod events;
 mod exec;
 mod gen_;
 mod model;
 mod oracle;
+mod reorg;
 mod rng;
 mod runner;
 mod scenario;
